@@ -41,6 +41,17 @@ def check_diff_extractor(repo, sub, findings, R=None):
                 findings.append(Finding("D0", s, "order 0 of the derivative table is not the whole order-0 overlap table", found=ast.unparse(s.node)[:100]))
             info["stores"].append((s, "D0"))
             continue
+        selfref = [(t["offset"], t["coef"]) for t in terms
+                   if all((not isinstance(o, tuple)) and o.is_number and o == 0 for o in t["offset"])]
+        if selfref:
+            # X[i] = f(X[i]): entries that were already computed are modified in place
+            cf = sp.simplify(selfref[0][1])
+            if not (len(terms) == 1 and cf == 1 and const == 0):
+                findings.append(Finding("D0" if s.index[0].kind == "const" and s.index[0].value == 0 else "D", s,
+                                        "entries of the derivative table are modified after they were computed (rescaled / masked in place)",
+                                        expected="each entry is stored once, by the recurrence", found=f"{s.text} = ({cf}) * itself" + (f" + {const}" if const != 0 else "")))
+            info["stores"].append((s, "MOD"))
+            continue
         ks = [k for k in inc_axis(terms, n_axes) if k < 3]
         if ks != [0]:
             raise AnalysisError("STENCIL", f"`{s.text}` does not raise the derivative order (axis 0): not the D recurrence", f.where(s.node))
